@@ -101,6 +101,11 @@ func (l *LBFGS) InitDirection(loc *Location, dir []float64) (stepSize float64) {
 
 	l.a = resize(l.a, l.Store)
 	l.rho = resize(l.rho, l.Store)
+	// The history is empty: do not keep the curvature values of a previous
+	// run, an infinite or NaN value times the zeroed s and y is NaN.
+	for i := range l.rho {
+		l.rho[i] = 0
+	}
 	l.y = l.initHistory(l.y)
 	l.s = l.initHistory(l.s)
 
